@@ -229,6 +229,17 @@ func generatedDocs(deep int) []gdoc {
 	add("base", baseDoc().bytes(), "ok")
 	add("base-xrefstream", baseDoc().bytesXRefStream(nil), "ok")
 	add("equalobjects-mixed-cycle", equalObjectsMixedCycle().bytes(), "")
+	{
+		// duplicate fonts whose object graph is cyclic: optimize.go traverse marks but never checks duplObjs
+		d := equalObjectsMixedCycle()
+		d.objs[3] = "<</X 3 0 R>>"
+		d.objs[7] = "<</Type/Font/Subtype/Type1/BaseFont/Helvetica/Encoding 3 0 R>>"
+		d.objs[8] = "<</Type/Font/Subtype/Type1/BaseFont/Helvetica/Encoding 3 0 R>>"
+		add("dup-font-cyclic-encoding", d.bytes(), "")
+		d = equalObjectsMixedCycle()
+		d.objs[3] = "<</X#00<</X 3 0 R>>>>"
+		add("dup-font-cyclic-encoding-nul-key", d.bytes(), "")
+	}
 
 	// ---- page tree shapes
 	{
